@@ -12,8 +12,8 @@ PY = '/venv/bin/python'
 
 # pid -> (design section, partial?, what the theorems establish, what is differential only)
 TABLE = {
-    'C01': ('§6 C01', False, 'for every running order (any size, any interleaved metadata) and every story-level message whose references resolve, the model\'s story-ID sequence after the merge equals the protocol\'s declarative list function; moves and swaps are permutations of the children for every input', ''),
-    'C02': ('§6 C02', False, 'the same one level down: item-ID sequence of the addressed story (first story with the ID), any interleaving of paragraphs, item IDs free to repeat in other stories', ''),
+    'C01': ('§6 C01', False, 'for every running order (any size, any interleaved metadata) and every story-level message whose references resolve, the model\'s story-ID sequence after the merge equals the protocol\'s declarative list function; moves and swaps are permutations of the children for every input; composed along every history of resolving story-level messages (C01_history)', ''),
+    'C02': ('§6 C02', False, 'the same one level down: item-ID sequence of the addressed story (first story with the ID), any interleaving of paragraphs, item IDs free to repeat in other stories; composed along every history into the item table of ALL stories (C02_history)', ''),
     'C03': ('§6 C03', False, 'frame theorems: everything the message does not name (by tag and non-blank ID) is identical and keeps its relative order, at root, roCreate and story level; a blank or unknown reference names nothing', ''),
     'C04': ('§6 C04', False, 'carried stories/items arrive deep-equal, contiguous and in message order; roStorySend arrives as pre ++ body-children(retagged) ++ post; roReplace content becomes the roCreate; carried metadata present', ''),
     'C05': ('§6 C05', False, 'for every message of every class and shape and every running order: if the model\'s merge ends in MosMergeError/MosCompletedMergeError the tree is the tree it was given; lifted to non-strict histories', ''),
@@ -21,13 +21,13 @@ TABLE = {
     'C07': ('§6 C07', False, 'roDelete marks completion and appends exactly one record; a completed running order refuses every message unchanged (step and history); no other class completes; completed documents classify as RunningOrder', ''),
     'C08': ('§6 C08', True, 'classification of the model depends only on the direct message-element children; total: never a built-in exception; the roElementAction table is decided by (operation, target has itemID, source has itemID)', 'expat well-formedness decisions (MosInvalidXML), independence from the warning filter, file/str/bytes equivalence: differential execution'),
     'C09': ('§6 C09', False, 'the collection merge loop equals the left fold of add over the sorted messages; strict stops at the first error with the prefix applied; non-strict skips exactly the failing messages with one MosMergeNonStrictWarning each', ''),
-    'C10': ('§6 C10', False, 'sorting readers by numeric message ID is permutation-invariant for distinct IDs; the decimal parser is the numeric value', ''),
+    'C10': ('§6 C10', False, 'sorting readers by numeric message ID is permutation-invariant for distinct IDs; the decimal parser is the numeric value; ties keep the supplied order (stable sort: C10_stable, C10_stable_determined)', ''),
     'C11': ('§6 C11', True, 'validate accepts iff non-empty, one roID, exactly one roCreate, at most one roDelete (exactly one unless incomplete allowed); every rejection is InvalidMosCollection', 'that python -O does not weaken the checks: differential execution in a -O subprocess'),
     'C12': ('§6 C12', False, 'on well-formed running orders and schema-shaped messages the model never yields a built-in exception; well-formedness is preserved by merges so the statement composes along histories', ''),
     'C13': ('§6 C13', True, 'on the labelled-tree aliasing model: copies carry fresh labels, mutations of running-order objects cannot change a message, separation is invariant over every history of copy-inserting merges, and under separation the labelled run projects onto the value-level run', 'object identity in CPython (id()-disjointness monitor on the real code)'),
     'C14': ('§6 C14', True, 'character-level round trip: every tree with valid names and CR-free non-empty character data reads back from its serialisation as exactly itself (model lexer + tree builder); token-level round trip for any tree; escaping round trips; envelope invariant (running-order element count, message ID, at most one completion record) along every history; the running-order ID is kept by messages addressed to it', 'that ElementTree\'s parser reads the serialiser\'s output as the model\'s lexer does, and that str(ro) is byte for byte the model\'s serialisation: compared at every explored state; one open known finding (U+000D in character data, stdlib serialiser)'),
     'C15': ('§6 C15', False, 'on running orders whose stories/items have IDs and whose optional data is numeric/parseable, no accessor of the model raises; stories/items are listed in document order; every item field incl. the note (first studioCommand type=note at any depth) agrees with the document; absent data is None', ''),
-    'C16': ('§6 C16', False, 'duration precedence, running-order duration = sum, offsets = prefix sums by position (repeated story IDs or not), start/end derivations incl. zone designators, over exact eighths of a second', ''),
+    'C16': ('§6 C16', False, 'duration precedence, running-order duration = sum, offsets = prefix sums by position (repeated story IDs or not), start/end derivations incl. zone designators, over exact eighths of a second; the code\'s element-keyed offset dictionary equals the positional table whenever no story element occurs twice (C16_offsets_by_element, tied to C13\'s separation), and differs otherwise (counterexample theorem)', ''),
     'C17': ('§6 C17', False, 'body = paragraphs and items in document order; script = stripped non-empty non-bracketed paragraphs in order; running-order script/body = concatenation over stories', ''),
     'C18': ('§6 C18', True, 'paginated listing returns every key with the suffix across all pages (no empty page before a non-empty one); reader metadata is that of the restored object', 'real file I/O, bytes decoding, boto3 protocol: differential execution through an injected fake client'),
     'C19': ('§6 C19', True, 'detect output is the per-file map of the library classification (order preserved, one bad file cannot affect another line); merge output is the serialisation of the library merge; exit codes (an outfile that cannot be opened is status 2)', 'argparse, real stdout/stderr, file writing: differential execution of mosromgr.cli.main in-process'),
